@@ -411,4 +411,7 @@ def run(ctx: core.Ctx) -> int:
                    func="<constructed generator>", construct="hash-order dependence " + diff_line[:60],
                    msg=f"the generated code depends on the hash order of the model's symbol sets: {diff_line}")
     ctx.floor("DET-W", ndet, 2, "witness valuations re-derived under different hash orders")
+    # generating twice from one generator object gives the same bytes: the generator's methods keep nothing from one emission to the next (shared with C02)
+    from . import c02 as _c02gm
+    _c02gm.gen_memo(ctx)
     return core.finish(ctx, explanation="order-taint over the E2 iteration inventory of the generator, sort-key totality, purity of generator modules", **META)
